@@ -3,6 +3,9 @@
 Decided over the call-graph reach of both calc methods: exception classes of explicit raises, implicit-exception sites of
 the scheduler core with explicit discharge rules, bounded loops whose counter lies on every cycle, recursion guarded by a
 memo plus a pre-check that follows every edge kind the passes recurse over, None-safe diagnosis messages.
+Round 4: Resource.get_available_units never hands out the calendar's None (directly or through a cache on self); an edge kind
+of the wait-for graph that is followed only under an extra condition is reported as narrowed; proofs that fail because a
+loop / sequence is written in a form the inference does not follow are UNDECIDED, not REFUTED.
 Not decided: stack depth on legitimately deep acyclic inputs; exceptions raised inside user supplied IResource /
 calendar callables; clone()'s dictionary lookups (assumption table: keys are drawn from the collection that built the map).
 """
@@ -84,9 +87,11 @@ def check(ctx):
             for v in vs:
                 vf = prog.func(v)
                 good = [c for c in facts.calls_named(calc, vf.name) if c.args and isinstance(c.args[0], ast.Name)
-                        and c.args[0].id == inp and cfg.dominates(cfg.node_containing(c), cn) and not cfg.conditions(cfg.node_containing(c))]
+                        and c.args[0].id == inp and cfg.dominates(cfg.node_containing(c), cn)]
                 if good:
                     o.site(calc, good[0], f"{vf.name}({inp})")
+                elif not facts.calls_named(calc, vf.name) and _mentions(calc, vf.name):
+                    o.undecided(calc, calc.node, vf.name, f"{vf.name} is referenced in calc but not called directly: cannot tell whether it runs before clone()")
                 else:
                     o.refute(calc, calc.node, vf.name, f"{vf.name}({inp}) does not run unconditionally before clone()")
     ctx.guarded(o, pre)
@@ -116,12 +121,22 @@ def check(ctx):
                "expressions building a raise message never concatenate (`+`) a string with a nullable task field", floor=3)
     ctx.guarded(o, lambda o: messages(ctx, o, core))
 
+    o = ctx.ob('capacity_is_never_none', 'R6b',
+               "Resource.get_available_units hands the schedulers a number on every return path: the calendar's None (day not "
+               "covered) is mapped to a number before it is returned or cached", floor=1)
+    ctx.guarded(o, lambda o: capacity_number(ctx, o))
+
     o = ctx.ob('subscripts_discharged', 'R6b',
                "every non-constant subscript in the scheduler core indexes a list by a range over its own length", floor=1)
     ctx.guarded(o, lambda o: subscripts(ctx, o, core))
 
 
 # ======================================================================================================================
+def _mentions(f, name):
+    return any((isinstance(n, ast.Name) and n.id == name) or (isinstance(n, ast.Attribute) and unmangle(n.attr) == name)
+               for n in walk_no_nested(f.node))
+
+
 def _loop_body_nodes(cfg, hdr):
     """nodes inside the cycle(s) through hdr"""
     return {n.id for n in cfg.nodes if cfg.can_reach(hdr, n) and cfg.can_reach(n, hdr)}
@@ -170,19 +185,28 @@ def loops(ctx, o, core):
             # candidate counters: names incremented by a positive constant inside the loop and compared with a bound
             counters = {}
             for d in fl.defs:
-                if d.kind == 'aug' and d.node is not None and d.node.id in body_ids and isinstance(d.stmt.op, ast.Add) and \
-                        isinstance(d.stmt.target, ast.Name) and (facts.const_num(d.stmt.value) or 0) > 0:
+                if d.node is None or d.node.id not in body_ids:
+                    continue
+                if d.kind == 'aug' and isinstance(d.stmt.op, ast.Add) and isinstance(d.stmt.target, ast.Name) and \
+                        (facts.const_num(d.stmt.value) or 0) > 0:
+                    counters.setdefault(d.var, []).append(d)
+                elif d.kind == 'assign' and d.value is not None and (
+                        (match(f"{d.var} + $k", d.value) and (facts.const_num(match(f"{d.var} + $k", d.value)['k']) or 0) > 0) or
+                        (match(f"$k + {d.var}", d.value) and (facts.const_num(match(f"$k + {d.var}", d.value)['k']) or 0) > 0)):
                     counters.setdefault(d.var, []).append(d)
             decided = False
+            half = None
             for var, incs in counters.items():
                 # bound check: loop test `var < bound` with a raise RuntimeError after the loop, or `if var > bound: raise` in the loop
                 bound_nodes = []
-                if match(f"{var} < $b", lp.test) or match(f"{var} <= $b", lp.test):
+                if _below(lp.test, var):
                     after_raise = _raise_after_loop(f, lp)
                     if after_raise:
                         bound_nodes.append(hdr)
+                    else:
+                        half = (var, "the loop is bounded by its counter but no `raise RuntimeError` follows it")
                 for n in walk_no_nested(lp):
-                    if isinstance(n, ast.If) and (match(f"{var} > $b", n.test) or match(f"{var} >= $b", n.test)) and \
+                    if isinstance(n, ast.If) and _above(n.test, var) and \
                             any(isinstance(x, ast.Raise) and facts.exc_name(x) == 'RuntimeError' for x in n.body):
                         tn = cfg.node_of(n)
                         if tn is not None:
@@ -208,19 +232,62 @@ def loops(ctx, o, core):
             if _is_worklist(ctx, f, lp):
                 o.site(f, lp, "finite worklist (each node pushed at most once)")
                 continue
+            if half is not None and _any_raise_after(f, lp):
+                # a counter bounds the loop, but what happens when it is exhausted is written in a form the rule does not follow
+                o.undecided(f, lp, lp.test, f"while loop `{src(lp.test)}`: {half[1]} in a recognised form")
+                continue
             o.refute(f, lp, lp.test, f"while loop `{src(lp.test)}` has no counter with a RuntimeError bound")
 
 
+def _below(test, var):
+    """test says `var < bound` / `var <= bound` (either operand order)"""
+    return bool(match(f"{var} < $b", test) or match(f"{var} <= $b", test) or match(f"$b > {var}", test) or match(f"$b >= {var}", test))
+
+
+def _above(test, var):
+    return bool(match(f"{var} > $b", test) or match(f"{var} >= $b", test) or match(f"$b < {var}", test) or match(f"$b <= {var}", test))
+
+
+def _raises_runtime_error(f, st):
+    if not isinstance(st, ast.Raise):
+        return False
+    if facts.exc_name(st) == 'RuntimeError':
+        return True
+    # raise err   with   err = RuntimeError(...)
+    if isinstance(st.exc, ast.Name):
+        ds = [d for d in flow_of(f).defs_of(st.exc.id)]
+        return bool(ds) and all(d.kind == 'assign' and isinstance(d.value, ast.Call) and isinstance(d.value.func, ast.Name) and
+                                d.value.func.id == 'RuntimeError' for d in ds)
+    return False
+
+
+def _any_raise_after(f, lp):
+    """some raise statement (in whatever form) lies in the statements that follow the loop"""
+    for n in ast.walk(f.node):
+        for fld in ('body', 'orelse', 'finalbody'):
+            body = getattr(n, fld, None)
+            if isinstance(body, list) and lp in body:
+                return any(isinstance(x, ast.Raise) for st in body[body.index(lp) + 1:] for x in ast.walk(st)) or \
+                    any(isinstance(x, ast.Raise) for st in lp.orelse for x in ast.walk(st))
+    return False
+
+
 def _raise_after_loop(f, lp):
-    """a `raise RuntimeError` directly follows the loop in its statement list"""
+    """a `raise RuntimeError` follows the loop in its statement list (only straight-line statements without control flow -
+    logging, building the message - in between), or is the loop's `else` clause"""
+    if lp.orelse and _raises_runtime_error(f, lp.orelse[-1]) and \
+            all(isinstance(s_, (ast.Expr, ast.Assign, ast.AnnAssign)) for s_ in lp.orelse[:-1]):
+        return True
     for n in ast.walk(f.node):
         for fld in ('body', 'orelse', 'finalbody'):
             body = getattr(n, fld, None)
             if isinstance(body, list) and lp in body:
                 i = body.index(lp)
                 for st in body[i + 1:]:
-                    if isinstance(st, ast.Raise) and facts.exc_name(st) == 'RuntimeError':
+                    if _raises_runtime_error(f, st):
                         return True
+                    if isinstance(st, (ast.Expr, ast.Assign, ast.AnnAssign)):
+                        continue
                     return False
     return False
 
@@ -271,13 +338,18 @@ def memo(ctx, o):
     for S in BOTH:
         ps = PassShape(ctx, S)
         f, cfg = ps.f, ps.cfg
-        first = f.body[0]
-        if isinstance(first, ast.Expr) and isinstance(first.value, ast.Constant):
-            first = f.body[1]
-        ok = isinstance(first, ast.If) and match(f"{ps.task}.id in {ps.memo}", first.test) and \
-            len(first.body) == 1 and isinstance(first.body[0], ast.Return)
-        if not ok:
+        first = [s_ for s_ in f.body if not (isinstance(s_, ast.Expr) and isinstance(s_.value, ast.Constant))][0]
+        sc = ps.memo_shortcut()
+        if sc is None:
             o.refute(f, first, first, "the pass does not start with `if task.id in memo: return`")
+            continue
+        if sc[0] == 'late':
+            o.refute(f, first, first, "the pass does not start with `if task.id in memo: return`: statements with effects run before the "
+                                      "memo is tested")
+            continue
+        skip = ps.memo_skip_nodes()
+        if not skip:
+            o.undecided(f, sc[1], sc[1], "memo shortcut found but its exit could not be located in the control flow graph")
             continue
         apps = [c for c in facts.calls_named(f, 'append') + facts.calls_named(f, 'add')
                 if match(f"{ps.memo}.append({ps.task}.id)", c) or match(f"{ps.memo}.add({ps.task}.id)", c)]
@@ -286,8 +358,7 @@ def memo(ctx, o):
             continue
         app_ids = {cfg.node_containing(c).id for c in apps}
         # every path from entry to the normal exit passes an append (except the memo shortcut)
-        shortcut = cfg.node_of(first.body[0])
-        avoid = app_ids | {shortcut.id}
+        avoid = app_ids | set(skip)
         seen, todo, leak = set(), [cfg.entry], False
         while todo:
             n = todo.pop()
@@ -324,7 +395,8 @@ def loop_check(ctx, o):
         return
     for c in calls:
         fo = sched.for_loop_of(f, c)
-        if fo is None or not match(f"{f.params[0]}.tasks", fo.iter):
+        fit = sched.strip_seq_copy(ex.expand(fo.iter, cfg_of(f).node_of(fo))) if fo is not None else None
+        if fo is None or not match(f"{f.params[0]}.tasks", fit):
             o.refute(f, c, c, f"the loop check does not start from every task of the WBS ({f.params[0]}.tasks)")
             continue
         shared = [ex.expand(x) for x in c.args[1:]]
@@ -390,8 +462,32 @@ def loop_check(ctx, o):
         for root in roots:
             for n in ast.walk(root):
                 if isinstance(n, (ast.ListComp, ast.GeneratorExp)) and n.elt is tup and len(n.generators) == 1:
-                    return n.generators[0]
+                    g_ = n.generators[0]
+                    return ast.comprehension(target=g_.target, iter=seq_x(g_.iter, root), ifs=g_.ifs, is_async=0)
+        # accumulate loop: `for v in ITER: <acc>.append(tup)` - conditions inside the loop are seen by extra_conditions
+        best = None
+        for fo in walk_no_nested(wf.node):
+            if isinstance(fo, ast.For) and any(x is tup for st_ in fo.body for x in ast.walk(st_)):
+                best = fo
+        if best is not None:
+            return ast.comprehension(target=best.target, iter=seq_x(best.iter, best), ifs=[], is_async=0)
         return None
+
+    wcfg = cfg_of(wf)
+
+    def seq_x(e, stmt):
+        at = wcfg.node_of(stmt) or wcfg.node_containing(stmt)
+        return sched.strip_seq_copy(exw.expand(e, at) if at is not None else e)
+
+    def elem_x(tup):
+        """the task element of a node tuple, locals resolved (`parent = _task.parent; .. (parent, False)`)"""
+        e = tup.elts[0]
+        if isinstance(e, ast.Name) and e.id != tv:
+            at = wcfg.node_containing(tup)
+            d = flow_of(wf).unique_def(e.id, at) if at is not None else None
+            if d is not None and d.kind == 'assign' and d.value is not None:
+                return exw.expand(e, at)
+        return e
 
     # statements of the function split by the `is_end` test
     end_nodes, start_nodes = [], []
@@ -405,25 +501,83 @@ def loop_check(ctx, o):
                 elif isinstance(t, ast.UnaryOp) and isinstance(t.op, ast.Not) and isinstance(t.operand, ast.Name) and t.operand.id == ev:
                     flag = not p
             (end_nodes if flag is True else start_nodes).append(st)
+    narrowed = {}
+
+    def extra_conditions(tup, nodes, allowed):
+        """conditions (beyond the start/end flag and the patterns in `allowed`) under which the statement holding tup runs"""
+        out = []
+        for st in nodes:
+            if not any(x is tup for x in ast.walk(st)):
+                continue
+            conds = list(facts.node_conditions(prog, wf, st, ctx.typer, expand=True))
+            conds += eval_conditions(st, tup) or []
+            for t, p in conds:
+                for a, q in facts.split_conj(t, p):
+                    a2, q2 = facts.norm_cond(a, q)
+                    core = a2
+                    while isinstance(core, ast.UnaryOp) and isinstance(core.op, ast.Not):
+                        core, q2 = core.operand, not q2
+                    if isinstance(core, ast.Name) and core.id == ev:
+                        continue
+                    if any(facts.cond_is(a, q, pat, want=w) for pat, w in allowed):
+                        continue
+                    em = sched.is_emptiness(a, q)
+                    if em is not None and not em[1] and any(same(em[0], x) for x in allowed_seqs):
+                        continue
+                    out.append(('' if q else 'not ') + src(a))
+        return out
+
+    allowed_seqs = []
+    unknown = []
+
+    def filt_text(gen):
+        return ' and '.join(src(c) for c in gen.ifs)
+
+    def classify(tup, nodes, side):
+        """which edge kind the node tuple stands for; records found / narrowed / unknown"""
+        gen = source_of(tup, nodes)
+        tgt, flag = elem_x(tup), tup.elts[1].value
+        kind, allowed = None, []
+        allowed_seqs[:] = []
+        if gen is None:
+            if side == 'end' and isinstance(tgt, ast.Name) and tgt.id == tv and flag is False:
+                kind = 'end->start'
+            elif side == 'start' and match(f"{tv}.parent", tgt) and flag is False:
+                kind, allowed = 'start->parent', [(f"{tv}.parent is None", False), (f"{tv}.parent", True)]
+        elif isinstance(gen.target, ast.Name) and isinstance(tgt, ast.Name) and tgt.id == gen.target.id and flag is True:
+            if side == 'end' and match(f"{tv}.children", gen.iter):
+                kind = 'end->children'
+            elif side == 'start' and match(f"{tv}.predecessors", gen.iter):
+                kind = 'start->pred'
+            allowed_seqs[:] = [gen.iter]
+        if kind is None:
+            unknown.append(tup)
+            return
+        extra = extra_conditions(tup, nodes, allowed)
+        if gen is not None and gen.ifs:
+            extra = [filt_text(gen)] + extra
+        extra = list(dict.fromkeys(extra))
+        if extra:
+            narrowed.setdefault(kind, extra)
+        else:
+            found[kind] = True
+
     for tup in pairs_in(end_nodes):
-        gen = source_of(tup, end_nodes)
-        tgt, flag = tup.elts[0], tup.elts[1].value
-        if gen is None and isinstance(tgt, ast.Name) and tgt.id == tv and flag is False:
-            found['end->start'] = True
-        if gen is not None and match(f"{tv}.children", gen.iter) and isinstance(gen.target, ast.Name) and isinstance(tgt, ast.Name) and \
-                tgt.id == gen.target.id and flag is True and not gen.ifs:
-            found['end->children'] = True
+        classify(tup, end_nodes, 'end')
     for tup in pairs_in(start_nodes):
-        gen = source_of(tup, start_nodes)
-        tgt, flag = tup.elts[0], tup.elts[1].value
-        if gen is not None and match(f"{tv}.predecessors", gen.iter) and isinstance(gen.target, ast.Name) and isinstance(tgt, ast.Name) and \
-                tgt.id == gen.target.id and flag is True and not gen.ifs:
-            found['start->pred'] = True
-        if gen is None and match(f"{tv}.parent", tgt) and flag is False:
-            found['start->parent'] = True
+        classify(tup, start_nodes, 'start')
+    # anything else that could produce nodes: generators, helper calls returning node lists
+    opaque = [n for n in walk_no_nested(wf.node) if isinstance(n, (ast.Yield, ast.YieldFrom))]
     for k, v in found.items():
         if v:
             o.site(wf, wf.node, f"edge {k}")
+        elif k in narrowed:
+            o.refute(wf, wf.node, f"edge {k}", f"the wait-for graph of the loop check follows the edge kind {k} only when `{' and '.join(narrowed[k])[:90]}`: "
+                                               f"the passes recurse over it unconditionally, so a cycle through an edge that fails this test ends "
+                                               f"in RecursionError instead of RuntimeError")
+        elif unknown or opaque:
+            o.undecided(wf, wf.node, f"edge {k}", f"edge kind {k} not found, but the function builds nodes the rule does not understand "
+                                                  f"(`{src((unknown or opaque)[0])[:50]}`)")
         else:
             o.refute(wf, wf.node, f"edge {k}", f"the wait-for graph of the loop check lacks the edge kind {k}: the passes recurse over it, so a "
                                                f"cycle through it ends in RecursionError instead of RuntimeError")
@@ -475,6 +629,9 @@ def divisions(ctx, o, core):
             msg = _loop_exit_divisor(ctx, f, n, D, S)
             if msg is True:
                 o.site(f, n, f"{src(D)} > 0 by loop-exit inference (last iteration booked under free > 0)")
+            elif isinstance(msg, tuple):
+                # the loop around the division is written in a form the inference does not follow: no proof, but no wrong construct either
+                o.undecided(f, n, n, f"division by `{src(D)}`: {msg[1]}")
             else:
                 o.refute(f, n, n, f"division by `{src(D)}`: {msg}")
 
@@ -487,22 +644,29 @@ def _loop_exit_divisor(ctx, f, node, D, S):
     cfg = fl.cfg
     rc = sched.reserve_calls(ctx, f)
     if len(rc) != 1:
-        return "no single booking site to infer from"
+        return ('undecided', "no single booking site to infer from") if rc else "divisor not proved non-zero"
     c = rc[0]
     loop = sched.while_loop_of(f, c)
     if loop is None:
-        return "booking not in a while loop"
+        return ('undecided', "booking not in a while loop")
     cn = cfg.node_containing(node)
     if any(x is node for st in loop.body for x in ast.walk(st)):
         return "division inside the loop without a dominating free > 0"
     left_p = f.params[5]
     st = sched.sign_test(loop.test)
-    if not (st and st[1] == '>' and isinstance(st[0], ast.Name) and st[0].id == left_p):
-        return "loop guard is not `remaining > 0`"
+    gvar = st[0].id if st and st[1] == '>' and isinstance(st[0], ast.Name) else None
+    if gvar is not None and gvar != left_p:
+        # a local copy of the parameter made before the loop (`remaining = left_hours`, e.g. left behind by helper inlining)
+        copies = [d for d in fl.defs_of(gvar) if d.kind != 'aug']
+        if not (len(copies) == 1 and copies[0].kind == 'assign' and isinstance(copies[0].value, ast.Name) and copies[0].value.id == left_p
+                and cfg.dominates(copies[0].node, cfg.node_of(loop)) and not [d for d in fl.defs_of(left_p) if d.kind != 'param']):
+            gvar = None
+    if gvar is None:
+        return ('undecided', "loop guard is not `remaining > 0`")
     # only update of remaining is the booking statement
-    defs = [d for d in fl.defs_of(left_p) if d.kind != 'param']
+    defs = [d for d in fl.defs_of(gvar) if d.kind not in ('param', 'assign') or gvar == left_p and d.kind != 'param']
     if not defs or any(not (d.kind == 'aug' and d.stmt.value is c) for d in defs):
-        return "the remaining work is updated elsewhere than at the booking"
+        return ('undecided', "the remaining work is updated elsewhere than at the booking")
     rnode = cfg.node_containing(c)
     # booking dominated by V - RESV > 0 where V is the divisor (same value)
     ex = Expander(prog, f, ctx.typer)
@@ -609,10 +773,17 @@ def extrema(ctx, o, core):
                 elt, tgt, it, ifs = parts
                 ps = PassShape(ctx, S)
                 reg = ps.region(n)
-                m = match(f"{tgt.id}.$a", elt)
-                if match(f"{ps.task}.children", it) and reg['leaf'] is False and m and m['a'] in ('start', 'end'):
+                m = match(f"{tgt.id}.$a", elt) if isinstance(tgt, ast.Name) else None
+                it_x = ps.ex.expand(it, cn) if cn is not None else it
+                if match(f"{ps.task}.children", sched.strip_seq_copy(it_x)) and reg['leaf'] is False and m and m['a'] in ('start', 'end'):
                     # children non-empty (not a leaf) and all dated (all_dated_on_exit) after the children loop
                     o.site(f, n, f"children {m['a']}s: summary has >= 1 child, every scheduled child is dated")
+                    continue
+                core_it = sched.strip_seq_copy(it_x)
+                if isinstance(core_it, (ast.BoolOp, ast.IfExp, ast.Subscript)) or \
+                        (isinstance(core_it, ast.Call) and not (isinstance(core_it.func, ast.Name) and core_it.func.id in ('reversed', 'sorted'))):
+                    # a source the rule cannot size (`xs or ys`, a slice, a helper's result): neither proved non-empty nor shown empty
+                    o.undecided(f, n, n, f"{n.func.id}() over `{src(core_it)[:60]}`: cannot tell whether the sequence can be empty")
                     continue
             o.refute(f, n, n, f"{n.func.id}({src(seq)[:50]}) may be applied to an empty sequence (ValueError)")
 
@@ -641,8 +812,7 @@ def all_dated(ctx, o):
     for S in BOTH:
         ps = PassShape(ctx, S)
         f, cfg = ps.f, ps.cfg
-        first = [s_ for s_ in f.body if not (isinstance(s_, ast.Expr) and isinstance(s_.value, ast.Constant))][0]
-        shortcut = cfg.node_of(first.body[0]) if isinstance(first, ast.If) and first.body else None
+        skip = ps.memo_skip_nodes() or set()
         for attr in ('start', 'end', 'estimate', 'spent'):
             gen = set()
             for st, tgt, val, reg in ps.stores(attr):
@@ -654,7 +824,7 @@ def all_dated(ctx, o):
                     if (match(f"{ps.task}.{attr} is None", n.test) and n.polarity is False) or \
                             (match(f"{ps.task}.{attr} is not None", n.test) and n.polarity is True):
                         gen.add(n.id)
-            avoid = set(gen) | ({shortcut.id} if shortcut else set())
+            avoid = set(gen) | set(skip)
             seen, todo, leak = set(), [cfg.entry], False
             while todo:
                 n = todo.pop()
@@ -791,8 +961,21 @@ def subscripts(ctx, o, core):
     for f in core:
         if isinstance(f.node, ast.Lambda) or f.module.name != 'schedule':
             continue
+        in_annotation = set()
+        for n in ast.walk(f.node):
+            anns = []
+            if isinstance(n, (ast.FunctionDef, ast.AsyncFunctionDef)):
+                anns = [a.annotation for a in n.args.posonlyargs + n.args.args + n.args.kwonlyargs if a.annotation is not None] + \
+                       ([n.returns] if n.returns is not None else []) + \
+                       [a.annotation for a in (n.args.vararg, n.args.kwarg) if a is not None and a.annotation is not None]
+            elif isinstance(n, ast.AnnAssign):
+                anns = [n.annotation]
+            for a in anns:
+                in_annotation.update(id(x) for x in ast.walk(a))
         for n in walk_no_nested(f.node):
             if not (isinstance(n, ast.Subscript) and isinstance(n.ctx, ast.Load)):
+                continue
+            if id(n) in in_annotation:
                 continue
             if isinstance(n.slice, ast.Constant) or isinstance(n.slice, ast.Slice):
                 continue
@@ -813,3 +996,100 @@ def subscripts(ctx, o, core):
                 o.site(f, n, "constant index")
                 continue
             o.refute(f, n, n, f"subscript `{src(n)}` with a computed key is not discharged (KeyError / IndexError)")
+
+
+# ======================================================================================================================
+def _calendar_answer(e):
+    """<x>.get_available_units(..) asked of something else than the resource itself: Optional[float] by the calendar contract"""
+    return isinstance(e, ast.Call) and isinstance(e.func, ast.Attribute) and e.func.attr == 'get_available_units' and \
+        not (isinstance(e.func.value, ast.Name) and e.func.value.id in ('self', 'cls')) and \
+        not (isinstance(e.func.value, ast.Call) and isinstance(e.func.value.func, ast.Name) and e.func.value.func.id == 'super')
+
+
+def _none_tested(conds, e):
+    """the path condition says e is not None (or truthy)"""
+    for t, p in conds:
+        for a, q in facts.split_conj(t, p):
+            a2, q2 = facts.norm_cond(a, q)
+            m = match("$x is None", a2)
+            if m and not q2 and same(m['x'], e):
+                return True
+            m = match("$x is not None", a2)
+            if m and q2 and same(m['x'], e):
+                return True
+            if q2 and same(a2, e):
+                return True
+    return False
+
+
+def capacity_number(ctx, o):
+    prog = ctx.prog
+    f = prog.func('resource.Resource.get_available_units')
+    cls_funcs = [g for g in prog.all_funcs() if g.qual.startswith('resource.Resource.') and not isinstance(g.node, ast.Lambda)]
+
+    def nullable_value(g, e, at, conds):
+        """[(case expression, reason)] for the cases of e (expanded in g) that may be None"""
+        ex = Expander(prog, g, ctx.typer)
+        v = ex.expand(e, at)
+        out = []
+        for cc, case in sched.expr_cases(v):
+            allc = list(conds) + list(cc)
+            if isinstance(case, ast.BoolOp) and isinstance(case.op, ast.Or) and facts.const_num(case.values[-1]) is not None:
+                continue
+            if _calendar_answer(case) and not _none_tested(allc, case):
+                out.append((case, "the calendar's raw answer (None for a day the calendar does not cover)"))
+        return out
+
+    # containers on self that may hold a raw calendar answer
+    raw = {}
+    for g in cls_funcs:
+        cfg = cfg_of(g)
+        for n in walk_no_nested(g.node):
+            tgts, val = [], None
+            if isinstance(n, ast.Assign):
+                tgts, val = [t for t in n.targets if isinstance(t, ast.Subscript)], n.value
+            elif isinstance(n, ast.Call) and isinstance(n.func, ast.Attribute) and n.func.attr == 'setdefault' and len(n.args) == 2:
+                tgts, val = [ast.Subscript(value=n.func.value, slice=n.args[0], ctx=ast.Store())], n.args[1]
+            for t in tgts:
+                path = attr_path(t.value)
+                if not path or not path.startswith(g.self_name + '.' if g.self_name else '\0'):
+                    continue
+                cn = cfg.node_containing(n) if isinstance(n, ast.Call) else cfg.node_of(n)
+                conds = facts.node_conditions(prog, g, n, ctx.typer, expand=True)
+                if nullable_value(g, val, cn, conds):
+                    raw[path.split('.', 1)[1]] = (g, n)
+
+    def raw_container_read(case):
+        """self.<c>[k] / self.<c>.get(k[, d]) of a container that may hold raw calendar answers"""
+        if isinstance(case, ast.Subscript):
+            p_ = attr_path(case.value)
+        elif isinstance(case, ast.Call) and isinstance(case.func, ast.Attribute) and case.func.attr in ('get', 'setdefault', 'pop'):
+            p_ = attr_path(case.func.value)
+        else:
+            return None
+        if p_ and '.' in p_ and p_.split('.', 1)[1] in raw:
+            return p_.split('.', 1)[1]
+        return None
+
+    cfg = cfg_of(f)
+    ex = Expander(prog, f, ctx.typer)
+    rets = [n for n in walk_no_nested(f.node) if isinstance(n, ast.Return)]
+    for r in rets:
+        if r.value is None or (isinstance(r.value, ast.Constant) and r.value.value is None):
+            o.refute(f, r, r, "Resource.get_available_units returns None: the schedulers subtract and compare the capacity (TypeError)")
+            continue
+        conds = facts.node_conditions(prog, f, r, ctx.typer, expand=True)
+        bad = nullable_value(f, r.value, cfg.node_of(r), conds)
+        v = ex.expand(r.value, cfg.node_of(r))
+        for cc, case in sched.expr_cases(v):
+            c_ = raw_container_read(case)
+            if c_ is not None and not _none_tested(list(conds) + list(cc), case):
+                bad.append((case, f"an entry of self.{unmangle(c_)}, which caches the calendar's raw answer (None for a day the calendar "
+                                  f"does not cover) - the None is mapped to a number only on the path that fills the cache"))
+        if bad:
+            for case, why in bad:
+                o.refute(f, r, r, f"Resource.get_available_units returns `{src(case)[:60]}`: {why}; the schedulers subtract and compare "
+                                  f"the capacity, so None ends in TypeError instead of a schedule or a RuntimeError")
+        else:
+            o.site(f, r, f"returns `{src(v)[:70]}`: None mapped to a number")
+
